@@ -425,7 +425,14 @@ fn run(c: &Case, obs: &mut Obs) -> Result<(), Violation> {
         }
         "wrap_and_sort" if !substvar0 => {
             probe::at("wrap_and_sort");
-            let r = root.wrap_and_sort();
+            // what wrap_and_sort does (including whether its comparison is a total order) is C13, not claimed
+            let r = match std::panic::catch_unwind(std::panic::AssertUnwindSafe(|| root.wrap_and_sort())) {
+                Ok(r) => r,
+                Err(_) => {
+                    obs.count("reach.init_wrap_and_sort_panicked");
+                    return Ok(());
+                }
+            };
             obs.count("reach.init_wrap_and_sort");
             match parse_field(&r.to_string(), false) {
                 // what wrap_and_sort does to the content is C13 (not claimed): only a readable result is used
